@@ -4,6 +4,7 @@ mod c10;
 mod c15;
 mod c16;
 mod c17;
+mod c19;
 mod coqfmt;
 mod model;
 mod ising;
@@ -34,7 +35,7 @@ pub fn write_shards(
         let path = format!("{}/{}.v", out, name);
         let mut f = std::io::BufWriter::new(std::fs::File::create(&path).unwrap());
         writeln!(f, "From Coq Require Import List QArith ZArith NArith Bool.").unwrap();
-        writeln!(f, "From QmcV Require Import Model.Prog Model.Sse Model.Ham Model.Diagonal Model.Tempering Check.Common Check.Table Check.{}.", module).unwrap();
+        writeln!(f, "From QmcV Require Import Model.Prog Model.Sse Model.Ham Model.Diagonal Model.Tempering Model.Classical Check.Common Check.Table Check.{}.", module).unwrap();
         writeln!(f, "Import ListNotations.").unwrap();
         writeln!(f, "Definition base : N := {}%N.", k * per_shard.max(1)).unwrap();
         writeln!(f, "Definition cases : list {}.case := [", module).unwrap();
@@ -91,6 +92,7 @@ fn main() {
         "c17" => c17::run(&args),
         "c10" => c10::run(&args),
         "c15" => c15::run(&args),
+        "c19" => c19::run(&args),
         other => {
             eprintln!("unknown command {}", other);
             std::process::exit(2);
